@@ -43,8 +43,9 @@ META = {
     "assumptions": [
         "'norm' validity is judged for lengths >= 1.1e-8 (valid) and <= 0.9e-8 or exactly 0 "
         "(invalid): the statement itself names the absolute 1e-8 threshold on the length",
-        "numpy ufuncs (np.sin(field), np.float64 + field) are not in the statement's list of "
-        "operations and are not judged here",
+        "unary and binary operations reached through the numpy ufunc protocol (np.sin(field), "
+        "np.add(f, g), np.float64(2) * field - numpy evaluates an operator with a numpy number "
+        "on the left this way) are judged like the operators they stand for",
     ],
 }
 
@@ -172,6 +173,16 @@ def unary_binary(ctx):
                       got=r.valid, a=a.valid, b=b.valid)
             flip_test(ctx, r, [a, b], what)
             ctx.event("binary." + name)
+    for name, uf in {"np.add": np.add, "np.multiply": np.multiply, "np.subtract": np.subtract}.items():
+        for tag, a, b in (("f,g", f, g), ("g,f", g, f)):
+            what = {"op": name, "operands": tag, **base}
+            ok, r = ctx.expect_ok("C08.binary.defined", uf, a, b, what=what)
+            if ok:
+                check_result(ctx, r, what)
+                ctx.check("C08.binary.valid_and", np.array_equal(r.valid, a.valid & b.valid), what=what,
+                          got=r.valid, a=a.valid, b=b.valid)
+                flip_test(ctx, r, [a, b], what)
+                ctx.event("binary.ufunc")
     # stacking
     comps = [s, df.Field(f.mesh, nvdim=1, value=1.0, valid=gen.rand_valid(rng, n, "random"))]
     what = {"op": "lshift", **base}
@@ -194,7 +205,20 @@ def unary_binary(ctx):
                      "pow_one": lambda x: x ** 1,
                      "add_zero_vector": lambda x: x + tuple([0.0] * x.nvdim),
                      "mul_ones_array": lambda x: x * np.ones_like(x.array),
-                     "double_neg": lambda x: -(-x)}.items():
+                     "double_neg": lambda x: -(-x),
+                     # a numpy number or array on the left: numpy evaluates the operator
+                     # through the ufunc protocol (Field.__array_ufunc__), not through the
+                     # reflected operator
+                     "np_float64_mul": lambda x: np.float64(2.5) * x,
+                     "np_sqrt_mul": lambda x: (1 / np.sqrt(2)) * x,
+                     "np_int64_add": lambda x: np.int64(2) + x,
+                     "mean_component_mul": lambda x: np.abs(x.mean()).max() * x,
+                     "ndarray_mul": lambda x: np.full(x.nvdim, 1.5) * x,
+                     "np_float64_sub": lambda x: np.float64(3) - x,
+                     "ufunc_negative": lambda x: np.negative(x),
+                     "ufunc_absolute": lambda x: np.abs(x),
+                     "ufunc_sin": lambda x: np.sin(x),
+                     "ufunc_multiply_number": lambda x: np.multiply(x, 2.0)}.items():
         what = {"op": name, **base}
         r = fn(f)
         check_result(ctx, r, what)
@@ -386,6 +410,15 @@ def set_validity(ctx):
         "None": (None, np.ones(n, bool)),
         "one": (1, np.ones(n, bool)),
         "zero": (0, np.zeros(n, bool)),
+        # constants as numpy hands them out (the result of .all() / .any(), one entry of a mask)
+        "np.True_": (np.True_, np.ones(n, bool)),
+        "np.False_": (np.False_, np.zeros(n, bool)),
+        "mask.any()": (target.any() | True, np.ones(n, bool)),
+        # a scalar field of zeros and non-zeros on the same mesh (what Field.resample passes)
+        "float_field": (df.Field(f.mesh, nvdim=1, value=np.where(target, 2.5, 0.0)[..., np.newaxis]),
+                        target),
+        "int_field": (df.Field(f.mesh, nvdim=1, value=target.astype(int)[..., np.newaxis], dtype=int),
+                      target),
     }
     for name, (spec_v, expected) in forms.items():
         for via in ("setter", "constructor"):
